@@ -15,6 +15,31 @@ CHECKS = {
         text="For every recorded update of every resolver variant TLC recomputes the spill level (min over neighbour paths of the max input elevation) as a least fixpoint on ulp-ranks and checks in <= out, bit-identity at base levels / masked nodes, and Spill <= out <= Spill + N ulps exactly (gap-compressed ranks keep small ulp distances exact).",
         note="Trusted: rank encoding (order and ulp gaps < 1000 exact), Grid specification for neighbourhoods. Bounded by world size and samples.",
         ref="5-C02"),
+    "C03": dict(
+        technique="TLA+ balance equation (FlowContract!AccBalance/AccConserves/AccIndicator) evaluated by TLC in exact integer arithmetic on recorded accumulate calls",
+        text="Every recorded accumulate call (4 overloads) on every kind of routed graph is validated by TLC: overloads bit-identical (ranks); where all quantities are exact integers (single direction: unit weights; multiple direction: weights that are multiples of 2^-8, results scaled by 2^K) the local balance acc = area*src + sum(donor acc * weight), conservation over terminal nodes and the local lower bound hold exactly; indicator sources reconstruct the whole linear operator on meshes (acc is bit-exactly 0 or area[u], non-zero exactly downstream of u).",
+        note="Trusted: integer/dyadic encodings (exact by construction of the generated inputs); cases outside the exact domain are only checked for overload agreement and memo consistency. Rounding-size deviations on non-dyadic weights are invisible.",
+        ref="5-C03"),
+    "C04": dict(
+        technique="TLA+ steepest-descent contract (FlowContract!C04) with exact integer slope comparison, TLC on recorded traces",
+        text="Every recorded single-router state: terminals are self receivers, a node is its own receiver exactly when no unmasked neighbour entry of the Grid specification is strictly lower, otherwise nrec = 1, weight bit-equal 1, stored distance equal to the grid distance of that entry, and drop_r^2 * dsq_j >= drop_j^2 * dsq_r for every lower neighbour j (exact integers: fields m*2^k, integer anisotropic spacings, wrap-around neighbours, integer-coordinate meshes).",
+        note="Maximality asserted only for fields given as integers times 2^k with k >= -900 (exact and floating orders provably agree there); existence asserted everywhere including subnormal scale and epsilon-filled terrain.",
+        ref="5-C04"),
+    "C05": dict(
+        technique="TLA+ partition contract (FlowContract!C05*) on recorded traces: receiver bag equality against Grid!NeighSeq, weights in Q(20) with interval slack",
+        text="Every recorded multi-router state (exponent changed between successive updates on the same object; raw, pflood-filled and mst-tilted terrain): receiver entries with distances equal, as a bag, the strictly lower unmasked neighbour entries of the Grid specification; weights finite, non-negative, summing to one within nrec units of 2^-20; proportionality to slope^p checked by integer cross-multiplication for p in {0, 1, 2} on exact inputs.",
+        note="Proportionality is an enclosure check (Q(16) with slack), asserted only on integer inputs at ordinary scale and for p in {0,1,2}; finiteness/sum/receiver set asserted everywhere (p = 1.5, 30; subnormal and 2^1000 scale).",
+        ref="5-C05"),
+    "C06": dict(
+        technique="TLA+ discrete invariants (FlowContract!C06Donors/C06Dfs/C06Bfs) evaluated by TLC on every recorded graph state",
+        text="Every recorded state of every operator sequence (single/multi, pflood, mst basic/carve, repeated updates, masks, looped borders, meshes): donor table is the inverse of the receiver table as bags over distinct nodes, counts within table widths and indices in range, dfs order is a permutation with every receiver before its donors, bfs order is a permutation cut into non-empty strictly increasing levels with every receiver in a strictly earlier level.",
+        note="Pure discrete check, exact. Bounded by the sampled worlds (<= 8x8).",
+        ref="5-C06"),
+    "C19": dict(
+        technique="TLA+ label contract (FlowContract!C19) evaluated by TLC on recorded basins() calls",
+        text="Every recorded basins() call on single-direction graphs (all resolver variants, masks, repeated updates): masked nodes carry the reserved label, every unmasked node has its receiver's label, outlets are labelled 0..k-1 in bottom-up order, number of labels = number of unmasked outlets, outlets()/pits() are exactly the outlets / the outlets that are not base levels.",
+        note="Pure discrete check, exact.",
+        ref="5-C19"),
 }
 
 NOT_APPLICABLE = [
